@@ -306,6 +306,29 @@ fn drive(cfg: &Config, slot: usize, progs: &[(String, Vec<Req>, Vec<u8>)], memcr
         }
         c.send(&Req::flush(op::FLUSH, None).bytes());
         c.read_frames(1, patience);
+        // the same refusal in the middle of a pipeline, all in one write: the requests behind the
+        // refused one are answered under every configured limit
+        drop(c);
+        std::thread::sleep(Duration::from_millis(30));
+        let mut c = Client::connect(srv.addr)?;
+        let mut bytes = Req::store(op::SET, b"P", b"before", 1, 0, 0).opaque(0x8001).bytes();
+        bytes.extend(Req::store(op::SET, b"L", &vec![b'w'; l - 8], 0, 0, 0).opaque(0x8002).bytes());
+        bytes.extend(Req::store(op::SET, b"P", b"after", 2, 0, 0).opaque(0x8003).bytes());
+        bytes.extend(Req::get(op::GET, b"P").opaque(0x8004).bytes());
+        bytes.extend(Req::bare(op::NOOP).opaque(0x8005).bytes());
+        let sent = c.send(&bytes);
+        let got = c.read_frames(5, patience);
+        let seen: Vec<(u8, u16, u32)> = wire::split_responses(&got).0.iter().map(|r| (r.opcode, r.status, r.opaque)).collect();
+        let want = vec![(op::SET, st::OK, 0x8001), (op::SET, st::TOO_LARGE, 0x8002), (op::SET, st::OK, 0x8003), (op::GET, st::OK, 0x8004), (op::NOOP, st::OK, 0x8005)];
+        let value_ok = wire::split_responses(&got).0.get(3).map(|r| r.value() == b"after").unwrap_or(false);
+        if !sent || seen != want || !value_ok {
+            problems.push((
+                "item-limit-pipelined".into(),
+                format!("configured max item size {} bytes: set, set of limit+1 bytes, set, get, noop in one write answered {:?}, expected {:?} with the get returning the second value", l, seen, want),
+            ));
+        }
+        c.send(&Req::flush(op::FLUSH, None).bytes());
+        c.read_frames(1, patience);
     }
     // ---- one client after another: a connection that ends with bytes the server never consumed
     // (requests behind a quit, a frame cut short) is followed by a fresh connection; whichever
